@@ -199,6 +199,8 @@ class Pipeline:
                     in_work(k, fn, c)
                     extra = "; finished but unpublished: " + fn
                     break
+            if fs.on_crash is not None:
+                fs.on_crash()
             raise Crash("pipeline run " + out + " published " + ",".join(done) + extra)
         fs.makedirs(d, exist_ok=True)
         for k, (fn, c, deps) in enumerate(files):
@@ -347,6 +349,13 @@ def h_resume(ctx, cfg):
         pl.allow = cfg.get("pre", 0) * cfg["bmax"]
         mod = _load_script(ctx, fs, pl)
         log = []
+        # the steps that are complete at the instant of an interruption (before any handler of the script has run)
+        at_crash = set()
+
+        def complete_now():
+            return {o for o, k in pl.launches if fs.exists(o + "/" + k["name"] + "/screen_metadata.json")
+                    and fs.exists(o + "/" + k["name"] + "/selected_plate")}
+        fs.on_crash = lambda: at_crash.update(complete_now())
         if cfg.get("pre", 0):
             saved_armed, fs.armed = fs.armed, False
             _pre_rounds(ctx, cfg, fs, pl, mod, mode, batch)
@@ -357,8 +366,10 @@ def h_resume(ctx, cfg):
             ctx.assume(False)  # the interruption point lies beyond this execution
         except Crash as cr:
             log.append("interrupted at: " + str(cr))
-        completed_before = {o for o, k in pl.launches if fs.exists(o + "/" + k["name"] + "/screen_metadata.json")
-                            and fs.exists(o + "/" + k["name"] + "/selected_plate")}
+        gone = sorted(at_crash - complete_now())
+        ctx.prove(not gone, "no completed step is ever deleted (nor by what the script does while it is being interrupted)",
+                  key="%s: completed step deleted by the script" % mode, detail=lambda: "; ".join(log)[:300] + " | deleted: %s" % gone[:2])
+        completed_before = complete_now() | at_crash
         if cfg["crashes"] == 2:
             state["phase"] = 2
             state["c2"] = ctx.int("crash_at2", 0, total)
@@ -369,6 +380,7 @@ def h_resume(ctx, cfg):
                 ctx.assume(False)
             except Crash as cr:
                 log.append("interrupted again at: " + str(cr))
+            completed_before = completed_before | at_crash
         state["phase"] = 3
         n_before = len(pl.launches)
         removed_before = len(fs.removed_dirs)
